@@ -185,6 +185,10 @@ def ref_op(kind, a, b=None):
         if kind == "EqualExpression":
             if a == b:
                 return a
+            # an exact int beside a double that is its nearest representable value: equal as IEEE doubles, different
+            # as exact numbers - the statement does not say which comparison is meant, so this is not asserted
+            if (is_intlike(a) != is_intlike(b)) and float(a) == float(b):
+                return NOT_ASSERTED
             return ("raises",)
     except OverflowError:
         return NOT_ASSERTED
